@@ -33,7 +33,7 @@ func ParseATx(v interface{}) ATx {
 //
 //	none/0: cnt++ and LOG1; 1: REVERT; 2: memory expansion beyond the gas budget; 3: return cnt;
 //	4: infinite loop; 5: CALL 0xfe with calldata[1:]
-var CounterInit, _ = hex.DecodeString("607780600b6000396000f360003560001a80600114603e578060021460445780600314604e5780600414605a5780600514605e576000546001018060005560005260aa60206000a1005b60006000fd5b6001633fffffff52005b60005460005260206000f35b605a565b36600060003760006000600136036001600060fe5af15000")
+var CounterInit, _ = hex.DecodeString("608c80600b6000396000f360003560001a8060011460455780600214604b5780600314605557806004146061578060051460655780600614607e576000546001018060005560005260aa60206000a1005b60006000fd5b6001633fffffff52005b60005460005260206000f35b6061565b36600060003760006000600136036001600060fe5af150005b436000524260205260406000f3")
 
 var (
 	PlainTo   = common.HexToAddress("0x00000000000000000000000000000000000d00d5")
@@ -115,9 +115,6 @@ func Concretize(t ATx, variant int) []byte {
 	case "admok":
 		// through the genesis Admin contract (core.AdminTo): changenode(bytes) packs msg.sender|txdata and calls 0xfe
 		data := AdminOK
-		if variant == 1 {
-			data = append(append([]byte{}, AdminOK...)) // same payload, the ABI padding differs below
-		}
 		in := append([]byte{0xba, 0x9c, 0x71, 0x6e}, common.LeftPadBytes([]byte{0x20}, 32)...)
 		in = append(in, common.LeftPadBytes([]byte{byte(len(data))}, 32)...)
 		in = append(in, common.RightPadBytes(data, 32)...)
